@@ -827,6 +827,11 @@ func (vfs *OrefaFS) Rename(oldname, newname string) error {
 
 	// Nothing can replace a directory (as os.Rename).
 	if nChildOk && nChild.mode.IsDir() {
+		// The same directory under another spelling of its path: nothing to do (as rename(2)).
+		if nChild == oChild && oldname != newname {
+			return nil
+		}
+
 		err := vfs.err.FileExists
 		if vfs.OSType() == avfs.OsWindows {
 			err = avfs.ErrWinAccessDenied
